@@ -51,6 +51,32 @@ func WithCancel(parent Context) (Context, CancelFunc) {
 	return wrap(rc.WithCancel(parent))
 }
 
+// WithCancelCause is context.WithCancelCause; the returned cancel is a scheduling point.
+func WithCancelCause(parent Context) (Context, CancelCauseFunc) {
+	ctx, cancel := rc.WithCancelCause(parent)
+	return ctx, func(cause error) {
+		rt.Point("cancel(cause)")
+		rt.ReleaseChan(ctx.Done())
+		cancel(cause)
+	}
+}
+
+// WithDeadlineCause is context.WithDeadlineCause (see WithDeadline).
+func WithDeadlineCause(parent Context, d time.Time, cause error) (Context, CancelFunc) {
+	if rt.S != nil {
+		return wrap(rc.WithCancel(parent))
+	}
+	return wrap(rc.WithDeadlineCause(parent, d, cause))
+}
+
+// WithTimeoutCause is context.WithTimeoutCause (see WithDeadline).
+func WithTimeoutCause(parent Context, d time.Duration, cause error) (Context, CancelFunc) {
+	if rt.S != nil {
+		return wrap(rc.WithCancel(parent))
+	}
+	return wrap(rc.WithTimeoutCause(parent, d, cause))
+}
+
 // WithDeadline is context.WithDeadline. Under the scheduler no runtime timer
 // is armed (the harness's parent context models expiry).
 func WithDeadline(parent Context, d time.Time) (Context, CancelFunc) {
